@@ -737,6 +737,20 @@ func checkIsParamAllowed(c *core.Ctx, genPkg, irPkg *packages.Package, r *core.R
 				if found && (k == "KindArray" || k == "KindStruct" || k == "KindMap") {
 					if id, ok := ce.Args[1].(*ast.Ident); !ok || id.Name != "false" {
 						nonRoot = false
+						// the object's own additional / pattern property maps are members of the object, not a
+						// nested object: `x := field.Inline != ir.InlineNone && field.Type.Is(ir.KindMap)` may stand
+						// in the root position for struct fields
+						if ok && k == "KindStruct" {
+							ast.Inspect(cc, func(m ast.Node) bool {
+								if as, isAs := m.(*ast.AssignStmt); isAs && len(as.Lhs) == 1 && len(as.Rhs) == 1 && types.ExprString(as.Lhs[0]) == id.Name {
+									rhs := types.ExprString(as.Rhs[0])
+									if strings.Contains(rhs, ".Inline != ir.InlineNone") && strings.Contains(rhs, "ir.KindMap") && strings.Contains(rhs, "&&") {
+										nonRoot = true
+									}
+								}
+								return true
+							})
+						}
 					}
 				}
 				return true
@@ -750,7 +764,7 @@ func checkIsParamAllowed(c *core.Ctx, genPkg, irPkg *packages.Package, r *core.R
 				r.Pass(fmt.Sprintf("ir.%s: recurses into %s", k, comp))
 			}
 		}
-		if k == "KindArray" || k == "KindStruct" {
+		if k == "KindArray" || k == "KindStruct" || k == "KindMap" {
 			// `if !root { return error }`
 			guard := false
 			for _, st := range cc.Body {
@@ -763,6 +777,33 @@ func checkIsParamAllowed(c *core.Ctx, genPkg, irPkg *packages.Package, r *core.R
 			} else {
 				r.Fail(key+":nested", c.Pos(cc.Pos()), fmt.Sprintf("the ir.%s arm does not refuse the kind below the root", k))
 			}
+		}
+	}
+	// meeting a type that is already on the path is a recursion: the hit on the visited set must end in an error,
+	// and the set must be a path (the entry is deleted again when the walk leaves the type)
+	{
+		hitErr, pops := false, false
+		ast.Inspect(fd.Body, func(n ast.Node) bool {
+			switch x := n.(type) {
+			case *ast.IfStmt:
+				if as, ok := x.Init.(*ast.AssignStmt); ok && len(as.Rhs) == 1 && strings.HasPrefix(types.ExprString(as.Rhs[0]), "visited[") && len(x.Body.List) == 1 {
+					if ret, ok := x.Body.List[0].(*ast.ReturnStmt); ok && len(ret.Results) == 1 {
+						if id, isID := ret.Results[0].(*ast.Ident); !isID || id.Name != "nil" {
+							hitErr = true
+						}
+					}
+				}
+			case *ast.CallExpr:
+				if id, ok := x.Fun.(*ast.Ident); ok && id.Name == "delete" && len(x.Args) == 2 && types.ExprString(x.Args[0]) == "visited" {
+					pops = true
+				}
+			}
+			return true
+		})
+		if hitErr && pops {
+			r.Pass("isParamAllowed: a type met again on the current path is refused (recursive parameter types never reach the templates)")
+		} else {
+			r.Fail("isParamAllowed:recursion", c.Pos(fd.Pos()), fmt.Sprintf("isParamAllowed does not refuse a type it meets again on the current path (hit returns an error: %v, path set: %v): a recursive object is admitted and panics the generated client, a recursive array sends the templates into unbounded recursion", hitErr, pops))
 		}
 	}
 	// every function that enables the "uri" feature also calls isParamAllowed (itself or its enclosing function)
